@@ -7,5 +7,5 @@ components x all declaration orders."""
 from props._runner import run
 
 if __name__ == "__main__":
-    run("C02", "proof", files=["model_sort.py"],
+    run("C02", "proof", files=["model_sort.py"], targets=["mxlpy.model:_check_if_is_sortable"],
         notes="C02: completeness check proved; sort order validity, cycle rejection, termination and cap adequacy covered by the bounded stand-in only")
